@@ -88,6 +88,7 @@ class Session:
         self.ws_sent: Dict[str, List[Dict[str, Any]]] = {}
         self.resp = clients.RespBodies()
         self.called_bytes = 0
+        self.remote_ops: Dict[str, List[Any]] = {}
         self.ws_out: Dict[str, List[Dict[str, Any]]] = {}  # messages apps passed to websocket.send
 
     def note_send(self, rid: str, msg: Dict[str, Any]) -> None:
@@ -192,6 +193,11 @@ class Session:
             elif s == "shutdown":
                 self.trace.log("shutdown")
                 env.shutdown()
+            elif s == "op":
+                rid = str(st["app"])
+                self.trace.log("app_go", app=rid, n=1)
+                self.remote_ops.setdefault(rid, []).append(st["op"])
+                env.grant(rid, 1)
             elif s == "go":
                 n = st.get("n", 1)
                 self.trace.log("app_go", app=str(st["app"]), n=n)
